@@ -2168,8 +2168,15 @@ def _c19_location(seed):
             loc.timezone = rng.choice(tzs)
             hist.append("timezone")
         else:
-            loc.solar_depression = rng.choice(["civil", "nautical", 7.5])
-            hist.append("solar_depression")
+            from astral import Depression as _Dep
+            name, want = rng.choice([("civil", 6), ("nautical", 12), ("astronomical", 18), (7.5, 7.5),
+                                     (_Dep.CIVIL, 6), (_Dep.NAUTICAL, 12), (_Dep.ASTRONOMICAL, 18), (0, 0)])
+            loc.solar_depression = name
+            hist.append("solar_depression=%r" % (name,))
+            got = loc.solar_depression
+            if float(got.value if isinstance(got, _Dep) else got) != float(want):
+                return {"clause": "solar_depression = %r is %r degrees by the documentation, the location "
+                                  "reports %r" % (name, want, got), "seed": seed, "history": hist}
     tz = zoneinfo.ZoneInfo(loc.timezone) if local else datetime.timezone.utc
     o = Observer(loc.latitude, loc.longitude, elev)
     o0 = Observer(loc.latitude, loc.longitude, 0.0)
